@@ -539,6 +539,11 @@ static void run_case(const vh::Case& c)
       out(hex(authentication::base64::encode(unhex(w.at(1)))));
     else if (op == "b64d")
       out(hex(authentication::base64::decode(unhex(w.at(1)))));
+    else if (op == "b64rt")
+    {
+      std::string e(authentication::base64::encode(unhex(w.at(1))));
+      out("enc=" + hex(e) + " dec=" + hex(authentication::base64::decode(e)));
+    }
     else if (op == "auth")
     {
       // auth <realm> <n> {<user> <password>}*n <header value | none>
